@@ -300,7 +300,7 @@ def run(res, tier, seed, broken, props, with_bcast):
             bad, tie = bad + b, tie + t
         if err:
             broken = broken + [{"obligation": "selection-primitive correspondence failed to run", "log": err[-3000:]}]
-    if "C09" in props or "C05" in props:
+    if set(props) & {"C01", "C02", "C04", "C05", "C09"}:
         b, t, err = run_bilinear_complex(res, "blc_" + props[0].lower(), seed)
         bad, tie = bad + b, tie + t
         if not err:
